@@ -19,9 +19,9 @@ TEXT = {
           MODEL, "property-based differential testing against a math/big reference model + metamorphic relations (rapid)", "DESIGN.md 4/C01"),
  "C02": T("Generated ordered pairs of points by relation class (independent, P=Q, P=-Q with same/different Z, identities in several representations, aliasing, nil) with white-box rescaling of projective coordinates and named intermediates of the formulas aimed at boundary values; results compared with the textbook affine law and validated as curve points. Every named exceptional class is constructed on every run; completeness itself is explored, not proved.",
           MODEL + " White-box coordinate access through a build overlay (calibrated at start-up; API-only fallback).", "property-based differential testing over constructed exceptional classes (rapid, build-overlay accessor)", "DESIGN.md 4/C02"),
- "C03": T("Byte strings from constructed classes (valid encodings, single-field mutations, p-aliases, the exhaustive word-wise neighbourhood of p, hybrid prefixes, all 1-byte strings, non-ASCII hex, random) are fed to every decoder, twice in a row, with a prior receiver (incl. used objects and zero-value structs); acceptance is compared with a predicate written from the statement, accepted values with the model point, rejected inputs must leave the receiver's value unchanged. Thorough tier adds coverage-guided native fuzzing with the same oracle.",
+ "C03": T("Byte strings from constructed classes (valid encodings, single-field mutations, p-aliases, the exhaustive word-wise neighbourhood of p, hybrid prefixes, all 1-byte strings, non-ASCII hex, random) are fed to every decoder, twice in a row, with a prior receiver (incl. used objects and zero-value structs); acceptance is compared with a predicate written from the statement, accepted values with the model point, rejected inputs must leave the receiver's value unchanged. Thorough tier adds coverage-guided native fuzzing with the same oracle. One case in ten presents a checksum twin (same length, equal under the CRC family, the xor folds or the additive checksums; constructed) of a valid encoding decoded just before.",
           MODEL, "property-based differential testing of decoders against an acceptance predicate + native coverage-guided fuzzing", "DESIGN.md 4/C03"),
- "C04": T("Points in generated representations (API recipes and white-box rescaling, both parities, identity representations) are encoded; bytes are compared with SEC1 bytes built by the model, all views must agree, all representations must give identical bytes, and both encodings must round-trip through Decode.",
+ "C04": T("Points in generated representations (API recipes and white-box rescaling, both parities, identity representations) are encoded; bytes are compared with SEC1 bytes built by the model, all views must agree, all representations must give identical bytes, and both encodings must round-trip through Decode. The look-alike abscissa decoded before the round trips may be a checksum twin of the abscissa that lies on the curve as well.",
           MODEL, "property-based differential + round-trip testing (rapid)", "DESIGN.md 4/C04"),
  "C05": T("Ordered pairs by relation class (same element/different representation, P vs -P, shared x, shared y via the endomorphism, identity representations) compared with model equality; symmetry and 0/1 range checked.",
           MODEL, "property-based testing against model equality over constructed relation classes (rapid)", "DESIGN.md 4/C05"),
@@ -29,9 +29,9 @@ TEXT = {
           MODEL, "property-based differential testing against math/big (rapid) + native fuzzing", "DESIGN.md 4/C06"),
  "C07": T("Byte/hex strings around n (single-limb differences, n+-2^k, lengths 0..80) decoded by all scalar decoders; acceptance compared with len=32 and int<n, stored value re-derived from the limbs independently, error classes compared.",
           MODEL, "property-based differential testing against an acceptance predicate (rapid) + native fuzzing", "DESIGN.md 4/C07"),
- "C08": T("Generated (msg, DST) including DST lengths 255/256/>255/2^16+-, an exhaustive (message length x DST length) grid, pre-image lengths around powers of two, sequences of calls from re-used caller buffers and all memory layouts, compared with an independent implementation of RFC 9380 hash_to_curve / encode_to_curve written from the non-optimised description; branch classes of the model are counted.",
+ "C08": T("Generated (msg, DST) including DST lengths 255/256/>255/2^16+-, an exhaustive (message length x DST length) grid, pre-image lengths around powers of two, sequences of calls from re-used caller buffers and all memory layouts, compared with an independent implementation of RFC 9380 hash_to_curve / encode_to_curve written from the non-optimised description; branch classes of the model are counted. Sequences of calls include consecutive requests whose tags or messages are checksum twins, and every message length around buffer sizes (2^8..2^16, 3*2^k, 10^k; thorough to 2^20); the sequence check runs first in its process.",
           MODEL, "property-based differential testing against an independent RFC 9380 implementation (rapid) + native fuzzing", "DESIGN.md 4/C08"),
- "C09": T("Generated (msg, DST) and chosen 48-byte expander outputs fed to the wide reduction, compared with OS2IP(expand_message_xmd) mod n computed by the model.",
+ "C09": T("Generated (msg, DST) and chosen 48-byte expander outputs fed to the wide reduction, compared with OS2IP(expand_message_xmd) mod n computed by the model. Sequences of calls include consecutive requests whose tags or messages are checksum twins, and every message length around buffer sizes (2^8..2^16, 3*2^k, 10^k; thorough to 2^20); the sequence check runs first in its process.",
           MODEL, "property-based differential testing against the model (rapid)", "DESIGN.md 4/C09"),
  "C10": T("Stateful model-based testing: generated histories over a pool of elements and scalars with arbitrary aliasing; after every step every variable is compared with the abstract model.",
           MODEL, "stateful model-based property testing (rapid state machine)", "DESIGN.md 4/C10"),
@@ -43,11 +43,11 @@ TEXT = {
           MODEL, "property-based testing against integer semantics (rapid)", "DESIGN.md 4/C13"),
  "C14": T("Generated scalars in canonical and Montgomery domains; all 256 positions of Bits compared with the bits of the independently computed canonical value and with Encode.",
           MODEL, "property-based differential testing (rapid)", "DESIGN.md 4/C14"),
- "C15": T("Generated API call descriptors with generated slice layouts (interior slices, spare capacity, shared backing arrays); full backing arrays and non-receiver operands compared before/after, returned slices scribbled on.",
+ "C15": T("Generated API call descriptors with generated slice layouts (interior slices, spare capacity, shared backing arrays); full backing arrays and non-receiver operands compared before/after, returned slices scribbled on. Later calls of other shapes (long and oversize tags) run directly after the hashing call under test before the caller's buffers are re-inspected.",
           MODEL, "property-based invariant checking over calls and memory layouts (rapid)", "DESIGN.md 4/C15"),
  "C16": T("Generated sets of concurrent calls over shared arguments (two shared DSTs, shared encodings, error paths) run under the Go race detector, starting cold in every process; results compared with sequential results computed afterwards.",
           MODEL + " The Go race detector (happens-before).", "generated concurrent workloads under the race detector + differential result comparison (rapid)", "DESIGN.md 4/C16"),
- "C17": T("Generated main packages (import subsets, including the empty one) built with plain go build and executed; output compared with the model.",
+ "C17": T("Generated main packages (import subsets, including the empty one) built with plain go build and executed; output compared with the model. Registry-replaced programs include a SHA-256 whose Sum returns a newly allocated slice; the thorough tier adds test binaries built with go1.26.8 whose first call runs inside a testing/synctest bubble.",
           MODEL, "generated-program testing over import sets with a differential oracle", "DESIGN.md 4/C17"),
  "C18": T("Generated entropy scripts (boundary blocks 0, n, n+1.., chunked reads, injected errors/EOF) substituted for crypto/rand.Reader; result compared with a model of the documented retry/reduce behaviour.",
           MODEL, "property-based testing with fault injection on the entropy source (rapid)", "DESIGN.md 4/C18"),
